@@ -379,3 +379,201 @@ func TestPropLongHistory(t *testing.T) {
 		}
 	})
 }
+
+// ---- connection faults -------------------------------------------------------------
+
+type faultReq struct {
+	Behav     string `json:"behav"` // model notfound error panic nothing invalid
+	FailReply bool   `json:"failReply,omitempty"`
+}
+
+type faultEvent struct {
+	RID         string     `json:"rid"`
+	FailPublish bool       `json:"failPublish,omitempty"` // the publish of the query event itself fails
+	Reqs        []faultReq `json:"reqs"`
+}
+
+// runFaults: query events on a connection that refuses single publishes. A query event
+// whose own publish failed still gets its one nil call and is released; a query request
+// whose reply could not be published gets nothing else instead.
+func runFaults(durMs int, evs []faultEvent) (viol []string) {
+	var mu sync.Mutex
+	var exits int64
+	res.VerifHook = func(point string, arg interface{}) {
+		if point == "qlistener.exit" {
+			atomic.AddInt64(&exits, 1)
+		}
+	}
+	defer func() { res.VerifHook = nil }()
+	s := res.NewService("svc")
+	s.SetWorkerCount(2)
+	s.SetLogger(nil)
+	s.SetQueryEventDuration(time.Duration(durMs) * time.Millisecond)
+	get := res.GetResource(func(r res.GetRequest) { r.NotFound() })
+	s.Handle("q.$id", res.Model, get)
+	conn := fakeconn.New()
+	failOnce := map[string]bool{} // subject (or "*query") -> fail the next publish on it
+	conn.FailPublish = func(subject string, n int) error {
+		mu.Lock()
+		defer mu.Unlock()
+		key := subject
+		if strings.HasPrefix(subject, "event.") && strings.HasSuffix(subject, ".query") {
+			key = "*query"
+		}
+		if failOnce[key] {
+			delete(failOnce, key)
+			return fmt.Errorf("injected publish failure")
+		}
+		return nil
+	}
+	var lastSubject string
+	conn.OnPublish = func(e fakeconn.Entry) {
+		if strings.HasPrefix(e.Subject, "event.") && strings.HasSuffix(e.Subject, ".query") {
+			var p struct{ Subject string }
+			_ = json.Unmarshal(e.Data, &p)
+			mu.Lock()
+			lastSubject = p.Subject
+			mu.Unlock()
+		}
+	}
+	served := make(chan struct{})
+	s.SetOnServe(func(*res.Service) { close(served) })
+	exited := make(chan struct{})
+	go func() { _ = s.Serve(conn); close(exited) }()
+	<-served
+	nils := make([]int, len(evs))
+	listeners := 0
+	nreq := 0
+	for i, fe := range evs {
+		i, fe := i, fe
+		mu.Lock()
+		lastSubject = ""
+		if fe.FailPublish {
+			failOnce["*query"] = true
+		}
+		mu.Unlock()
+		behav := map[string]faultReq{}
+		done := make(chan struct{})
+		if err := s.With(fe.RID, func(r res.Resource) {
+			defer close(done)
+			r.QueryEvent(func(qr res.QueryRequest) {
+				if qr == nil {
+					mu.Lock()
+					nils[i]++
+					mu.Unlock()
+					return
+				}
+				mu.Lock()
+				b := behav[qr.Query()]
+				mu.Unlock()
+				switch b.Behav {
+				case "model":
+					qr.Model(map[string]int{"a": 1})
+				case "notfound":
+					qr.NotFound()
+				case "error":
+					qr.Error(&res.Error{Code: "custom.e", Message: "E"})
+				case "invalid":
+					qr.InvalidQuery("bad")
+				case "panic":
+					panic("boom")
+				}
+			})
+		}); err != nil {
+			return append(viol, "With: "+err.Error())
+		}
+		<-done
+		synctest.Wait()
+		listeners++
+		mu.Lock()
+		subj := lastSubject
+		mu.Unlock()
+		if fe.FailPublish {
+			if subj != "" {
+				viol = append(viol, fmt.Sprintf("query event %d: the publish was refused but a query event reached the connection", i))
+			}
+			continue
+		}
+		if subj == "" {
+			viol = append(viol, fmt.Sprintf("query event %d: nothing published", i))
+			continue
+		}
+		for j, rq := range fe.Reqs {
+			q := fmt.Sprintf("e=%d&r=%d", i, j)
+			reply := fmt.Sprintf("_INBOX.f%d.%d", i, j)
+			mu.Lock()
+			behav[q] = rq
+			if rq.FailReply {
+				failOnce[reply] = true
+			}
+			mu.Unlock()
+			n := conn.Deliver(subj, reply, []byte(fmt.Sprintf(`{"query":%q}`, q)))
+			synctest.Wait()
+			nreq++
+			got := conn.Published(reply)
+			switch {
+			case n != 1:
+				viol = append(viol, fmt.Sprintf("query request %d/%d delivered to %d subscriptions", i, j, n))
+			case rq.FailReply && len(got) != 0:
+				viol = append(viol, fmt.Sprintf("query request %d/%d (%s): the connection refused its reply; afterwards %d other message(s) were published on its reply subject: %s", i, j, rq.Behav, len(got), got[0].Data))
+			case !rq.FailReply && len(got) != 1:
+				viol = append(viol, fmt.Sprintf("query request %d/%d (%s) got %d responses", i, j, rq.Behav, len(got)))
+			}
+		}
+	}
+	time.Sleep(time.Duration(durMs)*time.Millisecond + time.Second)
+	synctest.Wait()
+	mu.Lock()
+	for i, n := range nils {
+		if n != 1 {
+			viol = append(viol, fmt.Sprintf("query event %d (its own publish refused=%v): callback invoked with nil %d times, expected exactly once", i, evs[i].FailPublish, n))
+			break
+		}
+	}
+	mu.Unlock()
+	if e := atomic.LoadInt64(&exits); int(e) != listeners {
+		viol = append(viol, fmt.Sprintf("%d query events were subscribed but %d listener goroutines exited", listeners, e))
+	}
+	_ = s.Shutdown()
+	<-exited
+	return viol
+}
+
+// TestPropPublishFaults: single refused publishes (of a query event, of a query reply).
+func TestPropPublishFaults(t *testing.T) {
+	rapid.Check(t, func(rt *rapid.T) {
+		dur := rapid.SampledFrom([]int{100, 1000}).Draw(rt, "dur")
+		n := rapid.IntRange(1, 4).Draw(rt, "events")
+		var evs []faultEvent
+		faults := 0
+		for i := 0; i < n; i++ {
+			fe := faultEvent{RID: rapid.SampledFrom([]string{"svc.q.1", "svc.q.2"}).Draw(rt, "rid"), FailPublish: rapid.IntRange(0, 3).Draw(rt, "failpub") == 0}
+			k := rapid.IntRange(0, 4).Draw(rt, "nreq")
+			for j := 0; j < k; j++ {
+				fr := faultReq{Behav: rapid.SampledFrom([]string{"model", "notfound", "error", "invalid", "panic", "nothing"}).Draw(rt, "behav"), FailReply: rapid.IntRange(0, 2).Draw(rt, "failreply") == 0}
+				if fr.FailReply {
+					faults++
+				}
+				fe.Reqs = append(fe.Reqs, fr)
+			}
+			if fe.FailPublish {
+				faults++
+			}
+			evs = append(evs, fe)
+		}
+		var viol []string
+		func() {
+			defer func() {
+				if v := recover(); v != nil {
+					viol = append(viol, fmt.Sprintf("bubble ended abnormally: %v", v))
+				}
+			}()
+			synctest.Test(t, func(*testing.T) { viol = runFaults(dur, evs) })
+		}()
+		b, _ := json.Marshal(evs)
+		ev.Case(faults > 0, evid.Hash("faults", dur, string(b)), "publish-faults")
+		if len(viol) > 0 {
+			rt.Fatalf("%s\nevents: %s", viol[0], b)
+		}
+	})
+}
